@@ -8,6 +8,11 @@ PROBE = ('(do (step (- INDEX)) (let ([r (list MAX-INDEX INDEX (find (= top.clk 1
          '(step (- INDEX)) r))')
 
 
+PROBE_NOVIRT = ('(do (step (- INDEX)) (let ([r (list MAX-INDEX INDEX (find (= top.clk 1)) (count top.a) '
+                '(map (fn [i] (do (set-index i) (list INDEX TS top.cnt top.d top.a (reval top.cnt 1)))) (range (+ MAX-INDEX 1))))]) '
+                '(step (- INDEX)) r))')
+
+
 def csv_text(den):
     """the same samples as a logic-analyser CSV (columns named like the signals, time in seconds)"""
     names = ['top.clk', 'top.a', 'top.d', 'top.cnt']
@@ -73,6 +78,10 @@ class C19(framework.PropertyCheck):
             c = {'N': N, 'seed': seed, 'ops': ops}
             if rng.random() < 0.3:
                 c['csv'] = True        # the CSV reader has its own copy of the resampling code
+            if rng.random() < 0.25:
+                c['novirt'] = True     # no virtual signal is defined on the trace
+            if rng.random() < 0.15:
+                c['two'] = rng.randint(2, 9)      # a second trace is loaded as well: (sample-at L) re-indexes every loaded trace
             yield c
         if tier == 'thorough':
             import itertools
@@ -84,15 +93,58 @@ class C19(framework.PropertyCheck):
     def _trace(self, case):
         return gen_trace.simple_vcd(random.Random(case['seed']), case['N'])
 
+    def _plan_two(self, case):
+        vf, den = self._trace(case)
+        N, N2 = case['N'], case['two']
+        vf2, den2 = gen_trace.simple_vcd(random.Random(case['seed'] + 1), N2)
+        steps = [('loadvcd', 't0', gen_trace.render(vf)), ('loadvcd', 'tB', gen_trace.render(vf2))]
+        exps = [('ok',), ('ok',)]
+        probe = '(list t0^INDEX t0^MAX-INDEX t0^TS t0^top.cnt tB^INDEX tB^MAX-INDEX tB^TS tB^top.cnt)'
+        cur = {'t0': list(range(N)), 'tB': list(range(N2))}
+        dens = {'t0': den, 'tB': den2}
+
+        def expect(pos):
+            out = []
+            for t in ('t0', 'tB'):
+                o = cur[t][pos[t]]
+                out += [('I', pos[t]), ('I', len(cur[t]) - 1), ('I', dens[t]['timestamps'][o]), _v(dens[t]['values']['top.cnt'][o])]
+            return ('L', True, tuple(out))
+        for op in case['ops']:
+            if op[0] != 'sample' or not isinstance(op[1], list):
+                continue
+            L = [i for i in op[1] if i < min(N, N2)]
+            if not L:
+                continue
+            steps.append(('eval', 'eorg', "(sample-at '(" + ' '.join(map(str, L)) + '))'))
+            exps.append(('any',))
+            for t in cur:
+                cur[t] = dedup(L)
+            pos = {'t0': 0, 'tB': 0}
+            steps.append(('eval', 'eorg', probe))
+            exps.append(('val', expect(pos)))
+            if len(dedup(L)) > 1:
+                steps.append(('eval', 'eorg', '(step 1)'))
+                exps.append(('val', ('B', True)))
+                pos = {'t0': 1, 'tB': 1}
+                steps.append(('eval', 'eorg', probe))
+                exps.append(('val', expect(pos)))
+                steps.append(('eval', 'eorg', '(step -1)'))
+                exps.append(('val', ('B', True)))
+        return steps, exps
+
     def _plan(self, case):
+        if case.get('two'):
+            return self._plan_two(case)
         vf, den = self._trace(case)
         N = case['N']
         cur = list(range(N))
         mx = N - 1
         load = ('loadcsv', 't0', csv_text(den)) if case.get('csv') else ('loadvcd', 't0', gen_trace.render(vf))
         # vn depends on the neighbouring sample: what it caches is only valid for the sampling it was computed under
-        steps = [load, ('eval', 'eorg', '(defsig v (+ top.cnt 1))'), ('eval', 'eorg', '(defsig vn (reval top.cnt 1))')]
-        exps = [('ok',), ('any',), ('any',)]
+        novirt = bool(case.get('novirt'))
+        PR = PROBE_NOVIRT if novirt else PROBE
+        steps = [load] if novirt else [load, ('eval', 'eorg', '(defsig v (+ top.cnt 1))'), ('eval', 'eorg', '(defsig vn (reval top.cnt 1))')]
+        exps = [('ok',)] if novirt else [('ok',), ('any',), ('any',)]
 
         trimmed = [False]
 
@@ -104,6 +156,10 @@ class C19(framework.PropertyCheck):
             for j, o in enumerate(vis):
                 nxt = ('I', den['values']['top.cnt'][vis[j + 1]]) if j + 1 <= mx else ('B', False)
                 prv = ('I', den['values']['top.cnt'][vis[j - 1]] + 1) if j - 1 >= 0 else ('B', False)
+                if novirt:
+                    rows.append(('L', True, (('I', j), ('I', den['timestamps'][o]), _v(den['values']['top.cnt'][o]), _v(den['values']['top.d'][o]),
+                                             _v(den['values']['top.a'][o]), nxt)))
+                    continue
                 rows.append(('L', True, (('I', j), ('I', den['timestamps'][o]), _v(den['values']['top.cnt'][o]), _v(den['values']['top.d'][o]),
                                          _v(den['values']['top.a'][o]), ('I', den['values']['top.cnt'][o] + 1), nxt, prv,
                                          # what a virtual signal that reads beyond the new end reports at the last index after a trim is
@@ -111,7 +167,7 @@ class C19(framework.PropertyCheck):
                                          ('ANY',) if (trimmed[0] and j == mx) else nxt)))
             return ('L', True, (('I', mx), ('I', 0), ('L', False, tuple(('I', j) for j in clk)), ('I', cnt_a), ('L', False, tuple(rows))))
 
-        steps.append(('eval', 'eorg', PROBE))
+        steps.append(('eval', 'eorg', PR))
         exps.append(('val', probe()))
         pos = 0
         for op in case['ops']:
@@ -153,7 +209,7 @@ class C19(framework.PropertyCheck):
                 exps.append(('val', ('B', True)))
                 pos = op[1]
                 continue          # no probe: the next operation starts from this position
-            steps.append(('eval', 'eorg', PROBE))
+            steps.append(('eval', 'eorg', PR))
             exps.append(('val', probe()))
             pos = 0
         return steps, exps
